@@ -51,6 +51,14 @@ func levels(c *hx.Ctx) {
 					})
 					c.Check("C15/heading-range", n >= 1 && n <= 6, kase, func() string { return fmt.Sprintf("%q", md) })
 				}
+				// since the fix that gave the chunk writer its own cap at 6: a valid ATX level for every
+				// value of the box, and the clamp also without a configured maximum and for one above 6
+				c.Check("C15/heading-range-rag", n >= 1 && n <= 6, kase, func() string { return fmt.Sprintf("%q", md) })
+				if level >= 1 && level <= 6 && off >= -2 && off <= 7 {
+					c.Check("C15/heading-level-rag-anymax", n == clampLevel(level, off, max), kase, func() string {
+						return fmt.Sprintf("chunk heading level %d offset %d max %d: %q, want level %d", level, off, max, md, clampLevel(level, off, max))
+					})
+				}
 				levelsDirect(c, level, off, max, kase)
 				c.Case(fmt.Sprint(level, off, max), inQuantifier(level, off, max))
 			}
